@@ -208,6 +208,27 @@ pub fn run(tier: Tier) -> i32 {
                 }
             }
         }
+        // 2d. one link whose packets alternate between data formats 2 and 0 (each payload laid out as its own header
+        //     says): offsets and quoted bytes must follow the format of the packet the word is in
+        if !w.stave && w.links.len() == 1 {
+            let mut pk: Vec<fp_model::stream::Packet> = Vec::new();
+            for (i, p) in w.links[0].iter().enumerate() {
+                let fmt = if i % 2 == 1 { 2 - p.packet.rdh.data_format.min(2) } else { p.packet.rdh.data_format };
+                let ws: Vec<[u8; 10]> = p.words.iter().map(|x| x.bytes).collect();
+                let mut r = p.packet.rdh.clone();
+                r.data_format = fmt;
+                pk.push(fp_model::stream::Packet::framed(r, fp_model::payload::pack(&ws, fmt)));
+            }
+            let mixed = fp_model::stream::to_bytes(&pk);
+            for salt in 0..3u64 {
+                let bytes = Arc::new(garble(&mixed, 40 + salt, 0));
+                for mode in [Mode::SanityIts, Mode::AllIts] {
+                    for f in filters.iter().take(2) {
+                        cases.push(Case { label: format!("{} with alternating data formats, garbled salt {salt}", w.name), bytes: bytes.clone(), mode, filter: *f, pipe: salt % 2 == 1, cli: salt == 0 && f.is_none() });
+                    }
+                }
+            }
+        }
         // 2c. format-2 payloads whose second word begins with 1..5 zero bytes (six is the known finding of C12): the
         //     words are still cut every 10 bytes, so offsets and quoted bytes of the messages must stay truthful
         if !w.stave {
@@ -266,7 +287,7 @@ pub fn run(tier: Tier) -> i32 {
     rep.cov("evaluations", json!(cases.len()));
     rep.cov("distinct_nontrivial", json!(with_msgs));
     rep.cov("exhaustive", json!(true));
-    rep.cov("rule", json!("every message of: the C02 fault x site menu (every 3rd site in quick, all in thorough) x modes; witness streams with all payload words / non-framing header bytes replaced by arbitrary bytes (6 / 24 salts) x modes x {no filter, each link, each FEE id, each layer-stave} x {file-like, pipe-like}; the same with empty-payload packets (foreign / same link) inserted at 3 position patterns; format-2 payloads whose second word begins with 1..5 zero bytes; truncated tails; a CLI subset. non-trivial = the run produced at least one message to check"));
+    rep.cov("rule", json!("every message of: the C02 fault x site menu (every 3rd site in quick, all in thorough) x modes; witness streams with all payload words / non-framing header bytes replaced by arbitrary bytes (6 / 24 salts) x modes x {no filter, each link, each FEE id, each layer-stave} x {file-like, pipe-like}; the same with empty-payload packets (foreign / same link) inserted at 3 position patterns; format-2 payloads whose second word begins with 1..5 zero bytes; a link whose packets alternate between data formats 2 and 0; truncated tails; a CLI subset. non-trivial = the run produced at least one message to check"));
     rep.sample(json!({"check": "every run's messages pass through a real StatsCollector (collect, finalize): no panic in its offset parser, sorted ascending; 0x<offset> in input and at an RDH/word start; [b0..b9] == input[offset..offset+10]; `current :` row == decoded RDH at offset; `previous:` rows == the same link's two preceding RDHs"}));
     rep.assume("panics / crashes are not judged here (C04); the messages printed before are");
     rep.assume("payload layout agrees with the header's data format (the property's premise); words never end in 0xFF and the second word of a format-2 payload does not start with six zero bytes");
